@@ -492,6 +492,36 @@ def exec_a(sc, ctx):
                     bad = "fspath=%r != absolute=%r" % (os.fspath(pobj), pobj.absolute)
             if bad:
                 ctx.violation("path-bookkeeping", {"part": "a", "kind": kind, "what": bad.split("=")[0]}, "Path(%r, %r): %s" % (sp, m, bad))
+            elif i % 7 == 0:
+                # the object's methods agree with its bookkeeping: call form, content of a readable regular file,
+                # and the directory context is the path's directory and is left again
+                bad2 = None
+                if pobj() != pobj.absolute or pobj(absolute=False) != sp:
+                    bad2 = "__call__: %r / %r" % (pobj(), pobj(absolute=False))
+                elif kind in ("file", "link-file") and oracle_a(sp, "fr", cwd, home):
+                    oc = run_op(lambda: pobj.get_content())
+                    with rt.suspended():
+                        try:
+                            with open(want) as fh:
+                                real = fh.read()
+                        except OSError:
+                            real = None
+                    if real is not None and (oc.kind != "ret" or oc.value != real):
+                        bad2 = "get_content: %s %r, file holds %r" % (oc.brief(), oc.value, real)
+                if bad2 is None and "d" not in m and kind in ("file", "link-file", "dir", "link-dir"):
+                    def _ctx():
+                        with pobj.relative_path_context() as d:
+                            return d, os.getcwd()
+                    oc = run_op(_ctx)
+                    if oc.kind == "ret":
+                        exp_dir = os.path.realpath(os.path.dirname(pobj.absolute))
+                        if os.path.realpath(oc.value[1]) != exp_dir:
+                            bad2 = "relative_path_context: inside it the cwd is %r, expected %r" % (oc.value[1], exp_dir)
+                    if os.getcwd() != cwd0:
+                        bad2 = "relative_path_context: cwd not restored (%r)" % os.getcwd()
+                        os.chdir(cwd0)
+                if bad2:
+                    ctx.violation("path-methods", {"part": "a", "kind": kind, "what": bad2.split(":")[0]}, "Path(%r, %r): %s" % (sp, m, bad2))
     if os.getcwd() != cwd0:
         ctx.violation("cwd-not-restored", {"part": "a"}, "cwd changed by Path(): %s" % os.getcwd())
     sim.probe("a-accepted", acc)
